@@ -75,6 +75,9 @@ pub fn family(f: usize) -> Vec<(&'static str, SGeom)> {
         5 => vec![
             ("dart", SGeom::Poly(vec![(0, 0), (40, 10), (0, 20), (10, 10)])),
             ("sliver triangle", SGeom::Poly(vec![(0, 0), (60, 10), (60, 20)])),
+            // the truncated bounding-box centre (2,1) lies outside, between nothing: only boundary points are integral
+            ("tiny sliver triangle (odd width, bbox centre outside)", SGeom::Poly(vec![(0, 0), (5, 1), (5, 2)])),
+            ("tiny sliver triangle from its far end", SGeom::Poly(vec![(5, 2), (0, 0), (5, 1)])),
             ("boomerang from its tip (no axis neighbour of the first vertex inside, bbox centre outside)", SGeom::Poly(vec![(0, 0), (30, 25), (60, 0), (30, 30)])),
             ("boomerang from its notch", SGeom::Poly(vec![(30, 25), (60, 0), (30, 30), (0, 0)])),
         ],
@@ -85,6 +88,7 @@ pub fn family(f: usize) -> Vec<(&'static str, SGeom)> {
             ("path vertical", SGeom::Path(vec![(0, 0), (0, 40)], 4)),
             ("path 3 segments w2", SGeom::Path(vec![(0, 0), (40, 0), (40, 30), (10, 30)], 2)),
             ("path odd width", SGeom::Path(vec![(0, 0), (40, 0)], 3)),
+            ("path of width 0", SGeom::Path(vec![(0, 0), (100, 0), (100, 60), (40, 60)], 0)),
             ("path unit first segment", SGeom::Path(vec![(0, 0), (1, 0), (1, 30)], 4)),
             // the label (midpoint of the first segment) lies on the edge of the segment's rectangle
             ("path width 1", SGeom::Path(vec![(0, 0), (100, 0), (100, 50)], 1)),
@@ -551,7 +555,7 @@ fn self_check() -> Result<(), String> {
                             }
                         }
                         SGeom::Path(p, w) => {
-                            if p.len() < 2 || *w <= 0 || p.windows(2).any(|s| (s[0].0 != s[1].0) == (s[0].1 != s[1].1)) {
+                            if p.len() < 2 || *w < 0 || p.windows(2).any(|s| (s[0].0 != s[1].0) == (s[0].1 != s[1].1)) {
                                 return Err(format!("alphabet path '{name}' is not Manhattan"));
                             }
                         }
